@@ -20,5 +20,5 @@ TagsOf(e, openIds) ==
     [] OTHER -> <<>>
 SameFlat(a, b) == Len(a) = Len(b) /\ \A i \in 1..Len(a) : FlatSame(a[i], b[i])
 ReadCfg(allowIds, eofClose) == [allowId |-> allowIds, allowHier |-> FALSE, allowSize |-> FALSE, hasMax |-> FALSE, max |-> <<>>,
-                                buffered |-> {}, eofClose |-> eofClose]
+                                buffered |-> {}, eofClose |-> eofClose, cap0 |-> 16]
 =============================================================================
